@@ -805,6 +805,9 @@ class IkeSa(object):
             # Find matching IPsec configuration and narrow TS (reverse order as we are responders)
             ipsec_conf, chosen_tsr, chosen_tsi = self._get_ipsec_configuration(request_payload_tsi,
                                                                                request_payload_tsr)
+            # a rekey keeps the selectors of the replaced CHILD_SA (a smaller matching policy must not narrow them)
+            if rekey_notify:
+                chosen_tsr, chosen_tsi = rekeyed_child_sa.tsi, rekeyed_child_sa.tsr
 
             # check which mode peer wants and compare to ours
             requested_mode = xfrm.Mode.TUNNEL
